@@ -165,10 +165,12 @@ def first_diff(a, b):
     """smallest differing pair of sub-terms"""
     if a == b:
         return None
-    if isinstance(a, tuple) and isinstance(b, tuple) and len(a) == len(b) and a and b and a[0] == b[0]:
+    if isinstance(a, tuple) and isinstance(b, tuple) and len(a) == len(b) and a and (a[0] == b[0] or not isinstance(a[0], str)):
         diffs = [(x, y) for x, y in zip(a, b) if x != y]
-        if len(diffs) == 1 and isinstance(diffs[0][0], tuple) and isinstance(diffs[0][1], tuple):
-            return first_diff(*diffs[0])
+        if diffs and isinstance(diffs[0][0], tuple) and isinstance(diffs[0][1], tuple):   # several: report the first
+            return first_diff(*diffs[0]) or (a, b)
+        if not isinstance(a[0], str):      # an untagged argument list: report the enclosing pair instead
+            return None
     return a, b
 
 
